@@ -67,10 +67,12 @@ pub struct MultiRunData {
     pub blocked_producer: bool,
     /// (sends accepted with one fresh listener, a further one accepted?, sends accepted after every stream id was taken again)
     pub capacity_after: Option<(u32, bool, Option<u32>)>,
+    /// ownership mode only (C05)
+    pub own: Option<scn_uni::OwnData>,
 }
 
 fn log_name() -> String {
-    format!("verif-log-{:?}", std::thread::current().id()).replace(['(', ')'], "")
+    chan::scratch_log_name("log")
 }
 
 struct LogFileGuard(Option<String>);
@@ -193,6 +195,16 @@ pub fn multi_body(p: &MultiParams, flush_and_end: bool, check_capacity: bool) ->
             own
         }))
     };
+    // ownership mode (C05): a releaser thread drops the handles the listeners hand over
+    let own = crate::scn_held::own_cfg().is_some();
+    let releaser = if own { Some(shuttle::thread::spawn(crate::scn_held::releaser_thread)) } else { None };
+    if own {
+        ctx::with_ctx(|c| {
+            for i in 0..p.presend {
+                c.ledger.sent_done.insert(presend_id(i));
+            }
+        });
+    }
     let mut prod_handles = vec![];
     for (t, ops) in p.producers.iter().enumerate() {
         let (ch2, shared2, ops2) = (Arc::clone(&ch), Arc::clone(&shared), ops.clone());
@@ -293,6 +305,32 @@ pub fn multi_body(p: &MultiParams, flush_and_end: bool, check_capacity: bool) ->
             }
         }
     }
+    let mut own_data = None;
+    if own && !ctx::aborted() {
+        let mut od = scn_uni::OwnData::default();
+        let mut spins = 0u64;
+        while !crate::scn_held::releaser_idle() && !ctx::aborted() {
+            harness_yield();
+            spins += 1;
+            if spins > 100_000 {
+                panic!("harness: the releaser thread never became idle");
+            }
+        }
+        // channel alive, every listener parked holding nothing: whatever every listener has yielded (static listener
+        // set), and whatever was rejected, is destroyed
+        let n_listeners = listeners.lock().unwrap().len();
+        let judged: Vec<u32> = {
+            let sh = shared.lock().unwrap();
+            sh.events
+                .iter()
+                .filter(|e| matches!(e.kind, EvKind::SendOp(_)))
+                .filter(|s| !s.accepted || sh.events.iter().filter(|e| e.kind == EvKind::Poll && e.accepted && e.id == s.id).count() >= n_listeners)
+                .map(|e| e.id)
+                .collect()
+        };
+        od.undestroyed_after_release = crate::scn_held::not_destroyed_once(&judged);
+        own_data = Some(od);
+    }
     if !ctx::aborted() {
         ch.cancel_all();
     }
@@ -307,6 +345,12 @@ pub fn multi_body(p: &MultiParams, flush_and_end: bool, check_capacity: bool) ->
     }
     for (_, h) in churn_own {
         let _ = h.join();
+    }
+    if let Some(h) = releaser {
+        crate::scn_held::stop_releaser();
+        if !ctx::aborted() {
+            let _ = h.join();
+        }
     }
     // ---- capacity after everything was consumed and every handle released (pool-based kinds)
     let mut capacity_after = None;
@@ -350,7 +394,7 @@ pub fn multi_body(p: &MultiParams, flush_and_end: bool, check_capacity: bool) ->
     }
     let events = std::mem::take(&mut shared.lock().unwrap().events);
     let listeners = listeners.lock().unwrap().clone();
-    MultiRunData { events, listeners, stuck, pending_at_quiescence: pending, blocked_producer, capacity_after }
+    MultiRunData { events, listeners, stuck, pending_at_quiescence: pending, blocked_producer, capacity_after, own: own_data }
 }
 
 /// per listener: the ids it yielded, in order, with the payload address observed
